@@ -311,6 +311,19 @@ func (ba *BA) lin0(v ssa.Value) Lin {
 	case *ssa.ChangeType:
 		return ba.lin(x.X)
 	case *ssa.BinOp:
+		// arithmetic carried out in an 8- or 16-bit type wraps at sizes that real frames reach (a bolt class name plus
+		// header block above 65535 bytes): the result is NOT the mathematical sum, so it is an opaque atom. 32/64-bit
+		// wrap-around (frames of 4 GiB and more) stays outside the model (listed assumption).
+		if b, ok := x.Type().Underlying().(*types.Basic); ok && (x.Op == token.ADD || x.Op == token.SUB || x.Op == token.MUL || x.Op == token.SHL) {
+			switch b.Kind() {
+			case types.Uint8, types.Uint16, types.Int8, types.Int16:
+				if _, isC := x.X.(*ssa.Const); !isC {
+					if _, isC2 := x.Y.(*ssa.Const); !isC2 {
+						return ba.atom("narrow:"+x.Name(), isUnsigned(x.Type()))
+					}
+				}
+			}
+		}
 		switch x.Op {
 		case token.ADD:
 			return ba.lin(x.X).add(ba.lin(x.Y), 1)
